@@ -492,7 +492,7 @@ class MP4Tags(DictProxy, Tags):
         fileobj.seek(offset)
         fileobj.write(ilst_data)
         self.__update_parents(fileobj, path[:-1], delta)
-        self.__update_offsets(fileobj, atoms, delta, offset)
+        self.__update_offsets(fileobj, atoms, delta, offset, length)
 
     def __update_parents(self, fileobj, path, delta):
         """Update all parent atoms with the new size."""
@@ -554,19 +554,25 @@ class MP4Tags(DictProxy, Tags):
         except cdata.error:
             raise MP4MetadataError("wrong offset inside %r" % atom.name)
 
-    def __update_offsets(self, fileobj, atoms, delta, offset):
+    def __update_offsets(self, fileobj, atoms, delta, offset, length=0):
         """Update offset tables in all 'stco' and 'co64' atoms."""
         if delta == 0:
             return
+
+        def findall(root, name):
+            # what was inside the replaced region is not there any more
+            return [a for a in root.findall(name, True)
+                    if not offset <= a.offset < offset + length]
+
         moov = atoms[b"moov"]
-        for atom in moov.findall(b'stco', True):
+        for atom in findall(moov, b'stco'):
             self.__update_offset_table(fileobj, ">%dI", atom, delta, offset)
-        for atom in moov.findall(b'co64', True):
+        for atom in findall(moov, b'co64'):
             self.__update_offset_table(fileobj, ">%dQ", atom, delta, offset)
         # there can be more than one movie fragment
         for root in atoms.atoms:
             if root.name == b"moof":
-                for atom in root.findall(b'tfhd', True):
+                for atom in findall(root, b'tfhd'):
                     self.__update_tfhd(fileobj, atom, delta, offset)
 
     def __parse_data(self, atom, data):
